@@ -18,6 +18,94 @@ theorem hashJoin_eq_nested {α β γ κ} [DecidableEq κ] (L : List α) (R : Lis
       = L.flatMap (fun l => (R.filter (fun r => kr r = kl l)).map (out l)) :=
   hashJoin_eq_nested_aux L R kl kr out
 
+/-- one step of `_select`'s join loop is the relational comprehension: the new selection holds,
+for every joined row `l` (in order) and every stored row `r` of the new relation (in stored order)
+such that `l` and `r` carry equal cast values in every shared key column (`sharedKeys`: key
+columns of the new relation whose name is already a column of the selection), the row `l ++ r'`
+(`r'` = the requested columns of `r` that are not shared keys) — hence "shared keys once". -/
+theorem join_step_is_relational (db : DB) (sel : Sel) (j : String × List String) :
+    joinStep db sel j = nestedStep db sel j :=
+  joinStep_eq_nestedStep db sel j
+
+/-- "A select query returns exactly the rows of the inner join, on shared key columns, of the
+relations required by its projection and condition … that satisfy the condition, projected to the
+requested columns in the requested order, with multiplicities preserved": whenever `select`
+answers, its rows are the rows of the left-deep nested-loop join (`nestedJoins`, in plan order)
+filtered by the condition and mapped to the requested columns (`finish` = filter, then one value
+per projection entry, in projection order). -/
+theorem select_eq_spec (rx : List Char → List Char → Bool) (db : DB) (q : Query) (res : Result)
+    (h : select rx db q = .ok res) :
+    ∃ proj cond plan sel, resolveProj db q = .ok proj ∧ resolveQCond db q = .ok cond ∧
+      planJoins db proj (condFieldsOpt cond) q.rels = .ok plan ∧
+      nestedJoins db Sel.empty plan.joins = .ok sel ∧
+      finish rx sel proj cond = .ok res.rows := by
+  obtain ⟨proj, cond, plan, sel, rows, _, hproj, hcond, hplan, hsel, hrows, hres⟩ := select_inv h
+  refine ⟨proj, cond, plan, sel, hproj, hcond, hplan, ?_, ?_⟩
+  · rw [← runJoins_eq_nestedJoins]; exact hsel
+  · rw [hres]; exact hrows
+
+/-- the main clause, soundness for any number of relations, with no index or plan left in the
+statement: every row that `select` returns is justified by witness rows `w` — one stored row of
+each relation involved — such that (a) the condition holds when each comparison `n.c op lit` is
+evaluated on the cast value of column `c` of `w n` (`evalW`), and (b) the returned row is, column by
+column in the requested order, the raw text of a cell whose cast value is the cast value of the
+requested column `n.c` in `w n` (for a shared key the cell is the first joined relation's, equal as
+a cast value — "shared keys once").  Together with `select_eq_spec` (every agreeing combination is
+kept, in order, once per combination) this is "exactly the rows of the inner join … that satisfy
+the condition, projected to the requested columns in the requested order". -/
+theorem select_sound (rx : List Char → List Char → Bool) (db : DB) (q : Query) (res : Result)
+    (h : select rx db q = .ok res) :
+    ∃ proj cond, resolveProj db q = .ok proj ∧ resolveQCond db q = .ok cond ∧
+      ∀ out ∈ res.rows, ∃ (w : String → List Cell) (cells : List Cell),
+        out = cells.map (·.raw) ∧ CellsOf db w proj cells ∧
+        (∀ c, cond = some c → evalW rx db w c = true) :=
+  select_sound_aux rx db q res h
+
+/-- the invariant behind `select_sound`, usable on its own: in every selection produced by the
+join loop, each qualified name `n.c` of the index points, in every joined row, at a cell whose cast
+value is that of column `c` in the witness row of relation `n`; in particular two relations that
+were joined on a shared key `k` have `n₁.k` and `n₂.k` at the same position, so their witness rows
+agree on `k`. -/
+theorem joined_rows_witnessed (db : DB) (plan : List (String × List String)) (sel : Sel)
+    (h : runJoins db Sel.empty plan = .ok sel) : ∀ row ∈ sel.data, Witnessed db sel.index row := by
+  rw [runJoins_eq_nestedJoins] at h
+  exact (nestedJoins_inv db Sel.empty plan sel (selInv_empty db) h).wit
+
+/-- "… and, for a single relation, in stored order": when the plan consists of one relation,
+the answer is, with no index or join machinery left in the statement, the list of its stored rows
+that satisfy the condition (evaluated on the row's own cells, `evalSrc`), in stored order and with
+their multiplicities, each mapped to the raw values of the requested columns in the requested
+order; every requested column is a column of that relation. -/
+theorem select_single_relation (rx : List Char → List Char → Bool) (db : DB) (q : Query) (res : Result)
+    (h : select rx db q = .ok res) :
+    ∃ proj cond plan, resolveProj db q = .ok proj ∧ resolveQCond db q = .ok cond ∧
+      planJoins db proj (condFieldsOpt cond) q.rels = .ok plan ∧
+      ∀ name cols, plan.joins = [(name, cols)] →
+        ∃ rel, db.rel? name = some rel ∧ (∀ qn ∈ proj, qn.1 = name) ∧
+          res.rows = (rel.rows.filter (fun r => evalSrcOpt rx rel r cond)).map
+            (fun r => proj.map (fun qn => (cellOf rel r qn.2).raw)) :=
+  select_single_relation_aux rx db q res h
+
+/-- "'*' yields every column with shared keys once": if `*` over the relations `rels` expands to
+`qs`, then every non-key column of every named relation is in `qs` under its own relation, and there
+is a duplicate-free list `keys` of exactly the key-column names of the named relations, each
+emitted under one of the named relations, such that `qs` has exactly (number of non-key columns)
++ (number of distinct key names) entries — so no key name is emitted twice. -/
+theorem star_every_column_keys_once (db : DB) (rels : List String) (qs : List QName)
+    (h : projectAll db rels = .ok qs) :
+    (∀ name ∈ rels, ∀ rel, db.rel? name = some rel → ∀ f ∈ rel.fields, f.isKey = false → (name, f.name) ∈ qs) ∧
+    ∃ keys : List String, keys.Nodup ∧ (∀ k, IsKeyOf db rels k ↔ k ∈ keys) ∧
+      (∀ k ∈ keys, ∃ name ∈ rels, (name, k) ∈ qs) ∧
+      qs.length = nonKeyCount db rels + keys.length := by
+  obtain ⟨h1, keys, h2, _, h4, h5, h6⟩ := projectAllAux_spec db rels [] qs List.nodup_nil h
+  refine ⟨h1, keys, h2, fun k => ⟨h4 k, fun hk => ?_⟩, fun k hk => ?_, by simpa using h6⟩
+  · rcases h5 k hk with e | e
+    · simp at e
+    · exact e.1
+  · rcases h5 k hk with e | e
+    · simp at e
+    · exact e.2
+
 /-! ### empty fields -/
 
 /-- "equality and ordering comparisons never match an empty field": for each of
@@ -106,9 +194,39 @@ theorem not_takes_disjunction :
       = .ok (.not (.or [.leaf .eq ⟨"", "a"⟩ (.int 1), .leaf .eq ⟨"", "b"⟩ (.int 2)]), [.dot]) := by
   rfl
 
+/-- recorded behaviour outside the property's quantifier (the key-sharing graph item–parse–fs has a
+cycle): linking relations are added greedily in schema order, so with `fs(parse-id, i-id)` declared
+before `parse` the plan joins `fs` as well although `parse` alone links item, run and result; the
+answer then depends on the order of the relations in the schema.  Not a claim about tree-linked
+schemas. -/
+theorem pivot_greedy_observation :
+    (planJoins
+      [{ name := "fs", fields := [⟨"parse-id", .integer, true⟩, ⟨"i-id", .integer, true⟩, ⟨"f-val", .string, false⟩], rows := [] },
+       { name := "item", fields := [⟨"i-id", .integer, true⟩, ⟨"i-input", .string, false⟩], rows := [] },
+       { name := "run", fields := [⟨"run-id", .integer, true⟩, ⟨"r-comment", .string, false⟩], rows := [] },
+       { name := "parse", fields := [⟨"parse-id", .integer, true⟩, ⟨"run-id", .integer, true⟩, ⟨"i-id", .integer, true⟩], rows := [] },
+       { name := "result", fields := [⟨"parse-id", .integer, true⟩, ⟨"mrs", .string, false⟩], rows := [] }]
+      [("item", "i-input"), ("run", "r-comment"), ("result", "mrs")] [] []).toOption.map (fun p => p.joins.map (·.1))
+    = some ["item", "fs", "result", "parse", "run"] := by decide
+
 example : nf (.and [.leaf .eq ⟨"", "a"⟩ (.int 1), .not (.or [.leaf .re ⟨"item", "b"⟩ (.str ['x']), .leaf .lt ⟨"", "c"⟩ (.date (some 5))])]) = true := by
   rfl
 
 example : ProjOK .star ["item"] := by simp [ProjOK]
+
+/-- the hypothesis of `select_single_relation` is satisfiable: a one-relation plan -/
+example : (planJoins
+      [{ name := "item", fields := [⟨"i-id", .integer, true⟩, ⟨"i-input", .string, false⟩], rows := [] },
+       { name := "parse", fields := [⟨"parse-id", .integer, true⟩, ⟨"i-id", .integer, true⟩], rows := [] }]
+      [("item", "i-id")] [("item", "i-input")] []).toOption.map (·.joins)
+    = some [("item", ["i-id", "i-input"])] := by decide
+
+/-- … and a plan through a pivot relation (`item` and `run` share no key; `parse` links them) -/
+example : (planJoins
+      [{ name := "item", fields := [⟨"i-id", .integer, true⟩], rows := [] },
+       { name := "run", fields := [⟨"run-id", .integer, true⟩], rows := [] },
+       { name := "parse", fields := [⟨"parse-id", .integer, true⟩, ⟨"run-id", .integer, true⟩, ⟨"i-id", .integer, true⟩], rows := [] }]
+      [("item", "i-id"), ("run", "run-id")] [] []).toOption.map (·.joins)
+    = some [("item", ["i-id"]), ("parse", ["parse-id", "run-id", "i-id"]), ("run", ["run-id"])] := by decide
 
 end Verif.C11
